@@ -1592,7 +1592,11 @@ func (vm *VM) run() (Addr, bool) {
 							vm.setString(1, out.String())
 						} else if vm.fn.Format == ast.FormatMarkdown && ast.Format(b) == ast.FormatHTML {
 							out := vm.renderer.Out().(*bytes.Buffer)
-							err := vm.env.conv(out.Bytes(), call.renderer.out)
+							w := &convWriter{w: call.renderer.out}
+							err := vm.env.conv(out.Bytes(), w)
+							if w.err != nil {
+								panic(outError{w.err})
+							}
 							if err != nil {
 								panic(&fatalError{env: vm.env, msg: err})
 							}
